@@ -1,14 +1,13 @@
-\* repaired mechanism, larger bounds (3 queued messages, queues up to 3, two ghosts), all topologies, no retrievals
+\* repaired mechanism with retrievals of data chunks interleaved (D3 beyond the pieces of the pyramid)
 SPECIFICATION MCSpec
 CONSTANTS
   PullMax = 3
   PullingMax = 2
-  Ghosts <- MCGhosts
-  MsgBound = 3
-  QBound = 3
+  Ghosts <- OneGhost
+  MsgBound = 2
+  QBound = 2
   MCTopos <- AllTopos
   AsIs = FALSE
 CONSTRAINT Bound
-ACTION_CONSTRAINT NoRetrieve
 INVARIANTS TypeOK D1 D2 D3 D4File D4Disc NoCrash KeysAgree D5
 CHECK_DEADLOCK FALSE
